@@ -44,11 +44,27 @@ func formatFieldName(name string) string {
 }
 
 func escapeVarName(varName string) string {
-	if isReservedGoKeyword(varName) {
+	if isReservedGoKeyword(varName) || isUsedByGeneratedCode(varName) {
 		return varName + "Arg"
 	}
 
 	return varName
+}
+
+// isUsedByGeneratedCode tells whether an identifier is one the generated
+// functions use themselves: a variable of that name would shadow it.
+func isUsedByGeneratedCode(input string) bool {
+	switch input {
+	// receiver, variables and packages of the generated methods
+	case "builder", "resource", "cog", "err", "errs":
+		return true
+	// predeclared identifiers
+	case "append", "cap", "copy", "delete", "len", "make", "new", "panic",
+		"nil", "true", "false", "any":
+		return true
+	}
+
+	return false
 }
 
 func formatScalar(val any) string {
